@@ -315,7 +315,8 @@ PROPS["C17"] = _tx("C17", ["C17_limit_after_reset", "C17_limit_after_restart", "
                            "C17_receiver_dispatch", "C17_sender_dispatch", "C17_no_inactivity_fault_before_limit",
                            "C17_no_ack_fault_before_limit", "C17_sender_expiry_marks_eof", "C17_sender_no_expiry_quiet",
                            "C17_sender_one_eof_per_mark", "C17_receiver_expiry_marks_finished",
-                           "C17_receiver_one_finished_per_mark"], ["recv", "send"],
+                           "C17_receiver_one_finished_per_mark", "C17_nak_round_progress_resets",
+                           "C17_nak_round_repeats_below_limit", "C17_sender_ack_clears_count"], ["recv", "send"],
     "Proof: closed form of the Counter (count = min(max, elapsed/timeout)), the limit is reached exactly at "
     "t0 + max*timeout after a reset and after (max-count) further periods after a restart, paused timers never move; "
     "the fault-handler dispatch of both machines (action = configured one, default cancel; ignore leaves phase/state/"
@@ -325,7 +326,7 @@ PROPS["C17"] = _tx("C17", ["C17_limit_after_reset", "C17_limit_after_restart", "
     " The emission schedule is stated per event (an ACK-timer expiration below the limit marks the EOF / Finished PDU and declares "
     "nothing; the send arm emits exactly the marked PDU once and clears the mark; no expiration, no mark); the closed-loop "
     "sentence 'k expirations, k retransmissions' over a whole idle run is not a separate theorem (exercised by the lock-step "
-    "scripts), nor is the NAK retransmission schedule of the receiver. Counter::update's while loop is modelled by its closed form (timeout > 0).")
+    "scripts); for the receiver's NAK rounds: progress resets the count, a round without progress below the limit keeps it and emits one NAK. Counter::update's while loop is modelled by its closed form (timeout > 0).")
 PROPS["C19"] = _tx("C19", ["C19_receiver_silent", "C19_sender_silent", "C19_paused_timers_do_not_count", "C19_sender_resume_fresh"], ["recv", "send"],
     "Proof for both machines: in a suspended state the send arm and the timeout arm of the loop are disabled for any "
     "suspension length, and no operation whatsoever (received PDUs included) emits a PDU or declares a timer-limit "
